@@ -307,8 +307,12 @@ pub fn gen_set(rng: &mut Rng, ring: &mut KeyRing, n: usize, weights: &[u128], th
 
 /// Random well-formed set with boundary-rich weights/thresholds.
 pub fn gen_wellformed_set(rng: &mut Rng, ring: &mut KeyRing, max_n: usize) -> MSigners {
-    let n = 1 + rng.usize(max_n);
-    let style = rng.below(6);
+    // with room for more than 16 signers: a large set, half of the time with unit weights and a
+    // threshold that takes at least 17 signatures to reach
+    let big = max_n >= 17;
+    let n = if big { 17 + rng.usize(max_n - 16) } else { 1 + rng.usize(max_n) };
+    let many_needed = big && rng.chance(1, 2);
+    let style = if many_needed { 0 } else { rng.below(6) };
     let weights: Vec<u128> = (0..n)
         .map(|i| match style {
             0 => 1,
@@ -341,7 +345,8 @@ pub fn gen_wellformed_set(rng: &mut Rng, ring: &mut KeyRing, max_n: usize) -> MS
         weights
     };
     let total: u128 = weights.iter().sum();
-    let threshold = match rng.below(5) {
+    let threshold = match if many_needed { 5 } else { rng.below(5) } {
+        5 => 17 + rng.usize(n - 16) as u128,
         0 => 1,
         1 => total,
         2 => {
